@@ -406,10 +406,12 @@ class Task(object):
                 bars.append(-Z if maximize else Z)
             sol.update({"prosta": prosta.prim_and_dual_feas, "solsta": solsta.optimal, "xx": xx, "barx": barx,
                         "y": y, "bars": bars})
-            if st == "optimal":
+            if st == "optimal" and self._primal_violation(sol, rows) <= 1e-6:
                 self._self_check(sol, rows, c, C, maximize)
             else:
+                # an inaccurate answer of the underlying solver is NOT reported as an optimal MOSEK solution
                 sol["solsta"] = solsta.unknown
+                sol["prosta"] = prosta.unknown
         else:
             infeas = "infeasible" in st
             sol.update({"prosta": prosta.prim_infeas if infeas else prosta.dual_infeas,
@@ -419,6 +421,30 @@ class Task(object):
                                                                          [np.zeros((d, d)) for d in self.bardim])
             sol.update({"xx": xx, "barx": barx})
         self.sol = sol
+
+    def _primal_violation(self, sol, rows):
+        """largest violation of rows / bounds / semidefiniteness by the returned primal solution, relative to its size"""
+        xx, barx = sol["xx"], sol["barx"]
+        scale = 1.0 + max([float(np.max(np.abs(xx))) if len(xx) else 0.0] + [float(np.max(np.abs(X))) if X.size else 0.0 for X in barx])
+        worst = 0.0
+        for r in rows:
+            v = float(r["a"] @ xx) if self.numvar else 0.0
+            for j, Mx in r["bar"].items():
+                v += float(np.sum(Mx * barx[j]))
+            bk = r["bk"]
+            if bk in (boundkey.up, boundkey.ra):
+                worst = max(worst, v - r["bu"])
+            if bk in (boundkey.lo, boundkey.ra):
+                worst = max(worst, r["bl"] - v)
+            if bk is boundkey.fx:
+                worst = max(worst, abs(v - r["bl"]))
+        for j in range(self.numvar):
+            if self.vbk[j] is boundkey.fx:
+                worst = max(worst, abs(xx[j] - self.vbl[j]))
+        for X in barx:
+            if X.size:
+                worst = max(worst, -float(np.linalg.eigvalsh((X + X.T) / 2).min()))
+        return worst / scale
 
     def _ray(self, rows, c, C, maximize):
         """For a dual-infeasible (unbounded) task MOSEK reports a primal ray as 'solution': finite arrays."""
